@@ -52,6 +52,7 @@ def main():
     assert sh(['git', '-C', REPO, 'status', '--porcelain', '--untracked-files=no']).stdout.strip() == '', '/repo has uncommitted changes'
     meta['repo_commit'] = sh(['git', '-C', REPO, 'rev-parse', '--short', 'HEAD']).stdout.strip()
     tmp = tempfile.mkdtemp(prefix='seedrun_')
+    shutil.copytree(os.path.join(V, 'evidence'), os.path.join(tmp, 'evidence_saved'))      # evidence must describe the unchanged tree
     try:
         if '--skip-confirm' not in a:
             conf = {}
@@ -80,6 +81,8 @@ def main():
         finally:
             sh(['git', '-C', REPO, 'checkout', '--', '.'])
     finally:
+        for f in os.listdir(os.path.join(tmp, 'evidence_saved')):
+            shutil.copy(os.path.join(tmp, 'evidence_saved', f), os.path.join(V, 'evidence', f))
         shutil.rmtree(tmp, ignore_errors=True)
     meta['caught_by'] = sorted(c + ':' + t for c, d in meta.get('detection', {}).items() for t in ('quick', 'thorough') if d.get(t, {}).get('violations', 0) > 0)
     json.dump(meta, open(mp, 'w'), indent=1)
